@@ -836,8 +836,13 @@ func (c *wsConn) handleWsConn(ctx context.Context) {
 
 	// on close, make sure to return from all pending calls, and cancel context
 	//  on all calls we handle
-	defer c.closeInFlight()
+	// (deferred calls run in reverse order: pending calls are failed first and
+	// channels are closed after that, as in tryReconnect. The other way round a
+	// subscription whose response is being processed during the exit could get
+	// its channel handler registered after closeChans and still be handed to
+	// the caller, leaving a channel that is never closed)
 	defer c.closeChans()
+	defer c.closeInFlight()
 
 	// setup pings
 
